@@ -46,6 +46,9 @@ pub fn guarded<T>(f: impl FnOnce() -> T) -> Result<T, String> {
     })
 }
 
+/// Open known findings (ids) whose input class the search must skip, so that a *different* violation is still found.
+pub fn kf_open(id: &str) -> bool { std::env::var("VERIF_KF_OPEN").map(|v| v.split(',').any(|x| x == id)).unwrap_or(false) }
+
 pub type SearchFn = fn(item: &str, seed: u64, hint: &Value) -> Option<(Value, String)>;
 pub type RunFn = fn(item: &str, input: &Value) -> Option<String>;
 
